@@ -269,6 +269,18 @@ def targeted_functions(rnd):
     return f"Select(EventDataset(), lambda {E}: {apply})"
 
 
+def targeted_stage_parameters(rnd):
+    """a SelectMany stage function with a further parameter nobody fills (keyword-only, defaulted, *rest) that carries the name of an
+    outer variable the NEXT stage uses: the fusion rules move the next stage's function under it"""
+    pool = ["e", "j", "t"]
+    E, F, T = rnd.choice(pool), rnd.choice(["x", "j_", "t_"]), rnd.choice(["q", "w", "k"])
+    extra = rnd.choice([f"*, {E}=1", f"*, {E}=First(EventDataset())", f"{E}=2", f"*{E}", f"/, {E}=3", f"*, m_=1, {E}=0"])
+    nxt = rnd.choice([f"Select({{s}}, lambda {T}: {T}.pt + {E}.met)", f"Where({{s}}, lambda {T}: {T}.pt > {E}.met - 90)", f"SelectMany({{s}}, lambda {T}: {E}.jets)",
+                      f"Select(Where({{s}}, lambda {T}: {T}.pt > 0), lambda {T}: {T}.pt + {E}.x)"])
+    first = f"SelectMany(EventDataset(), lambda {F}, {extra}: {F}.jets)"
+    return f"Select(EventDataset(), lambda {E}: {nxt.format(s=first)})"
+
+
 def targeted_first(rnd):
     """a variable bound to First(<sequence mentioning a live outer name>) by a called lambda, read by attribute / key / index inside a
     second, lambda-free called lambda whose parameter re-uses that outer name: the First push-through rules re-visit the value"""
@@ -293,6 +305,8 @@ def targeted_first(rnd):
 
 def targeted_capture(rnd):
     k = rnd.random()
+    if k < 0.07:
+        return targeted_stage_parameters(rnd)
     if k < 0.15:
         return targeted_functions(rnd)
     if k < 0.28:
